@@ -34,6 +34,7 @@ static inline str str_from_range(const char *a, const char *b) {
 #endif
   r.data[n] = 0; r.len = n; return r; }
 static inline str str_from_sv(sv s) { return str_from_range(s.data, s.data + s.len); }
+static inline str *str_assign(str *d, sv s) { *d = str_from_sv(s); return d; }
 static inline str str_substr(const str *s, unsigned long pos, unsigned long n) {
   if (pos > s->len) { __exc = EXC_out_of_range; return str_empty(); }
   unsigned long rem = s->len - pos; unsigned long k = n < rem ? n : rem;
